@@ -311,6 +311,9 @@ def store_subscript(I, o, k, v):
     if isinstance(o, VMap):
         kk = unwrap(k, o.kt)
         map_store(I, o, kk, v)
+        if isinstance(v, VDictRec) and isinstance(o.vt, TMutRec):
+            v.origin = (o, kk)
+            v.adopt(o.vt)
         return
     if isinstance(o, VSeq):
         idx = norm_index(I, o, k)
@@ -321,6 +324,21 @@ def store_subscript(I, o, k, v):
     if isinstance(o, VDictRec):
         c = const_of(k) if isinstance(k, VStr) else _NOCONST
         if isinstance(c, str):
+            if o.mt is not None:
+                # by-value record: fixed keys, typed fields, mutation written back to the owning container
+                if c not in o.mt.fields:
+                    raise Unsupported("new key %r stored into a %s record" % (c, o.mt.nm))
+                ft = o.mt.fields[c]
+                if isinstance(v, VDictRec) and isinstance(ft, TMutRec):
+                    v.origin = (o, c)
+                    v.adopt(ft)
+                elif isinstance(v, (VSeq, VMap, VSet)):
+                    v.origin = (o, c)
+                elif not isinstance(v, VDictRec):
+                    v = ft.wrap(unwrap(v, ft))
+                o.fields[c] = v
+                o.writeback()
+                return
             o.fields[c] = v
             return
         raise Unsupported("symbolic key store into literal dict")
@@ -1397,6 +1415,8 @@ def map_get(I, m, k, default):
         return default
     # try a value level ite first; fork when the default has a different shape
     try:
+        if isinstance(m.vt, TMutRec) and not I.spec:
+            raise TypeError("record alias: fork")
         if isinstance(default, VNone):
             t = m.vt if isinstance(m.vt, TOpt) else TOpt(m.vt)
             r = t.wrap(z3.If(present, unwrap(val, t), t.none()))
@@ -1948,9 +1968,9 @@ def _for_map_inv(I, s, env, spec, m, kind):
             if kind == "keys":
                 x = kt.wrap(kk)
             elif kind == "values":
-                x = m.vt.wrap(z3.Select(val0, kk))
+                x = m.get(kk)       # the value as it is now (origin kept: mutations are written back)
             else:
-                x = VTuple([kt.wrap(kk), m.vt.wrap(z3.Select(val0, kk))])
+                x = VTuple([kt.wrap(kk), m.get(kk)])
             I.assign(s.target, x, env)
             try:
                 I.exec_block(s.body, env)
